@@ -77,7 +77,7 @@ def random_selector(rng, S, n):
             lim = n + 2
             a = rng.choice([None, rng.randrange(-lim, lim + 1), rng.randrange(-lim, lim + 1)])
             b = rng.choice([None, rng.randrange(-lim, lim + 1), rng.randrange(-lim, lim + 1)])
-            c = rng.choice([None, 1, 2, 3, rng.randrange(1, max(2, n)), rng.randrange(1, max(2, n // 2 + 1))])
+            c = rng.choice([None, 1, 2, 3, rng.randrange(1, max(2, n)), rng.randrange(1, max(2, n // 2 + 1)), -1, -2, -rng.randrange(1, max(2, n))])
             idxs = list(range(n))[a:b:c]
             if idxs:
                 return S.Slice(a, b, c), 'Slice(%r,%r,%r)' % (a, b, c), idxs
